@@ -47,6 +47,20 @@ def gen_model_lines(rng, tier, schemas):
                     pieces.append(nm + rng.choice(['', '', '=1', '="q"', '=', '==2']))
                 sp = (c18gen.ws_run(rng) + sep + c18gen.ws_run(rng)).join(pieces)
             lines.append('fvm %s %s' % (cname, sp.encode().hex() or '-'))
+    # Strict-Transport-Security end to end (value classes included): spellings of values, and malformed ones
+    sts = [f for f in c18gen.families() if f.name == 'HSTS'][0]
+    for _ in range(n):
+        v = sts.value(rng)
+        heads, free = v
+        text = rng.choice(c18gen.spellings(rng, sts, heads, free, 1))[1]
+        k = rng.random()
+        if k < 0.25:
+            text = text.replace('max-age=', rng.choice(['max-age==', 'max-age', 'max-age=x', 'max-age=-', 'Max-Age="', 'max-age= ']), 1)
+        elif k < 0.35:
+            text = text.replace('preload', rng.choice(['preload=1', 'preloadx', 'pre load']), 1)
+        elif k < 0.45:
+            text += rng.choice(['; max-age=7', '; MAX-AGE=8', ';max-age=99999999999999999', '; max-age=86399999999999'])
+        lines.append('sts %s' % (text.encode().hex() or '-'))
     for _ in range(n):
         name = rng.choice(['Server', 'SERVER', 'server', 'X-Foo', 'Serve', 'Server ', '', 'A:B'])
         val = ''.join(rng.choice(['a', 'b', ' ', '\t', ':', 'x y', '\r', '\n']) for _ in range(rng.randint(0, 6)))
@@ -271,7 +285,7 @@ def run(chk):
     chk.coverage['spellings_per_family_and_rule'] = dict(sorted(counts.items()))
     chk.coverage['rule'] = ('model vs implementation: NameValuePairList tokeniser and dictionary on random separator-rich text, the attribute matching of every '
                             'FieldValueMultiple class of the generated table (real _parse_basic_params and _check_name, value parsers replaced by recorders), '
-                            'header-line split; implementation vs grammar: for every family the canonical text and spellings by rule (name case, optional white '
+                            'header-line split, Strict-Transport-Security end to end (value classes included, error kinds compared); implementation vs grammar: for every family the canonical text and spellings by rule (name case, optional white '
                             'space, empty elements, order, quoting, unknown directives, all combined, the composed spelling), header lines (field-name case, '
                             'OWS after the colon and before CRLF), header blocks of known, unknown and unusable fields against their lines parsed one by one')
     for fname, cls, canon, variants in (cases + hcases)[::max(1, len(cases + hcases) // 8)]:
